@@ -324,12 +324,25 @@ impl Scenario for C02Global {
                         // the local recorder; once it is closed the thread is back on the global path
                         let local = LogRecorder::new(1000 + e as u32, local_shared.clone());
                         let before = log.lock().unwrap().len();
-                        metrics::with_local_recorder(&local, || {
-                            for _ in 0..scoped {
-                                dsim::point("c02g.in_scope");
+                        // (scopes of 4 points and more end in a panic of the closure, caught here:
+                        // the thread must be back on the global path all the same)
+                        struct ScopePanic;
+                        let r = std::panic::catch_unwind(std::panic::AssertUnwindSafe(|| {
+                            metrics::with_local_recorder(&local, || {
+                                for _ in 0..scoped {
+                                    dsim::point("c02g.in_scope");
+                                }
+                                metrics::counter!("c02_scoped").increment(1);
+                                if scoped >= 4 {
+                                    std::panic::resume_unwind(Box::new(ScopePanic));
+                                }
+                            })
+                        }));
+                        if let Err(p) = r {
+                            if !p.is::<ScopePanic>() {
+                                std::panic::resume_unwind(p);
                             }
-                            metrics::counter!("c02_scoped").increment(1);
-                        });
+                        }
                         let me = dsim::tid();
                         let l = log.lock().unwrap();
                         let mine: Vec<u32> = l[before..].iter().filter(|ev| ev.tid == me && ev.op.starts_with("register")).map(|ev| ev.rec).collect();
